@@ -438,7 +438,45 @@ func errOperand(ret *ssa.Return) ssa.Value {
 	if res.Len() == 0 || !isErrorType(res.At(res.Len()-1).Type()) {
 		return nil
 	}
-	return ret.Results[len(ret.Results)-1]
+	return unspill(ret.Results[len(ret.Results)-1])
+}
+
+// unspill undoes the spilling of results around `rundefers`: in a function with
+// defers go/ssa stores each result into a local, runs the defers and reloads it
+// (`*t1 = v; rundefers; t2 = *t1; return t2`). If v is such a reload and the
+// latest store to the same local precedes it in the same block, return the
+// stored value. (A deferred closure could still overwrite a NAMED result; the
+// locals used for unnamed results are not visible to closures.)
+func unspill(v ssa.Value) ssa.Value {
+	ld, ok := v.(*ssa.UnOp)
+	if !ok || ld.Op != token.MUL {
+		return v
+	}
+	al, ok := ld.X.(*ssa.Alloc)
+	if !ok {
+		return v
+	}
+	// captured by a closure? then a defer may change it
+	for _, r := range *al.Referrers() {
+		switch r.(type) {
+		case *ssa.Store, *ssa.UnOp, *ssa.DebugRef:
+		default:
+			return v
+		}
+	}
+	var last *ssa.Store
+	for _, in := range ld.Block().Instrs {
+		if in == ssa.Instruction(ld) {
+			break
+		}
+		if st, ok := in.(*ssa.Store); ok && st.Addr == al {
+			last = st
+		}
+	}
+	if last == nil {
+		return v
+	}
+	return last.Val
 }
 
 var errorCtors = map[string]bool{
